@@ -21,6 +21,7 @@
 #define SOLREADER2_HPP
 
 #include <cstdio>
+#include <climits>
 
 #include "mp/sol-reader2.h"
 
@@ -499,7 +500,9 @@ Lget(char **sp, int *Lp)
     return 1;
   L = c - '0';
   while((c = *s) >= '0' && c <= '9') {
-    L = 10*L + c - '0';
+    if (L > (INT_MAX - (c - '0')) / 10)
+      return 1;                 // does not fit into int
+    L = 10*L + (c - '0');
     s++;
   }
   *Lp = L;
@@ -593,9 +596,9 @@ int SOLReader2<SOLHandler>::sufheadcheck(SufRead* sr) {
     return 1;
   i = (int)sr->h.kind & 3;
   if (sr->h.tablen
-   && (sr->tablines > sr->h.tablen + 1 || sr->tablines < 1))
+   && (sr->tablines - 1 > sr->h.tablen || sr->tablines < 1))
     return 1;
-  sr->xp.resize((sr->h.tablen + 2*sr->h.namelen + 6));
+  sr->xp.resize((size_t)sr->h.tablen + 2*(size_t)sr->h.namelen + 6);
   sr->name = (char*)sr->xp.data();
   sr->table = sr->name + sr->h.namelen;
   sr->tabname = sr->table + sr->h.tablen;
